@@ -470,8 +470,9 @@ impl FixtureDatabase {
             for arg in Self::all_args(args) {
                 let arg_name = arg.def.arg.as_str();
                 declared_params.insert(arg_name.to_string());
-                // Track as dependency if it's not self/request (these are special)
-                if arg_name != "self" && arg_name != "request" {
+                // Track as dependency if it's not self/request (these are special).
+                // A parameter with a default value is an ordinary argument, not a fixture request.
+                if arg_name != "self" && arg_name != "request" && arg.default.is_none() {
                     dependencies.push(arg_name.to_string());
                 }
             }
@@ -502,7 +503,7 @@ impl FixtureDatabase {
             for arg in Self::all_args(args) {
                 let arg_name = arg.def.arg.as_str();
 
-                if arg_name != "self" && arg_name != "request" {
+                if arg_name != "self" && arg_name != "request" && arg.default.is_none() {
                     let arg_line =
                         self.get_line_from_offset(arg.def.range.start().to_usize(), line_index);
                     let start_char = self.get_char_position_from_offset(
@@ -552,7 +553,8 @@ impl FixtureDatabase {
                 let arg_name = arg.def.arg.as_str();
                 declared_params.insert(arg_name.to_string());
 
-                if arg_name != "self" {
+                // A parameter with a default value is an ordinary argument, not a fixture request
+                if arg_name != "self" && arg.default.is_none() {
                     let arg_offset = arg.def.range.start().to_usize();
                     let arg_line = self.get_line_from_offset(arg_offset, line_index);
                     let start_char = self.get_char_position_from_offset(arg_offset, line_index);
